@@ -8,6 +8,7 @@ oracle: the property itself at parser level: Environment.parse returns or raises
 Called from harness/c01.py as  run_parse_tie(ctx).
 """
 import itertools
+import re
 import os
 import subprocess
 
@@ -17,7 +18,11 @@ RULE_PARSE = ("K-parse statements: grammar-generated templates over all modelled
               "set inline/block with filters, with, autoescape, block scoped/required, extends, include, import, from-import, "
               "macro, call block, filter block, print) with generated expressions and targets, word-level mutations of them "
               "(delete / duplicate / swap / insert a keyword or delimiter), exhaustive sequences of <= 3 fragments inside a "
-              "tag and at top level; distinct = source; non-trivial = contains a block tag.")
+              "tag and at top level; the same under 6 non-default lexer configurations (ERB-style <% %> ${ }, brackets [% %] [[ ]], PHP-style with a "
+              "shared end delimiter, line statements and line comments, line statements + custom delimiters + trim_blocks, trim/lstrip/"
+              "keep_trailing_newline): sources translated delimiter by delimiter (tags at random rewritten as line statements), then TOKEN-level "
+              "mutations with that environment's lexer (delete / duplicate / swap / replace / insert one token, delimiters included, once or twice) "
+              "and a slice of the exhaustive short sequences; distinct = (configuration, source); non-trivial = contains a block tag.")
 
 # ------------------------------------------------------------------ encoding the real token stream
 OPS = {"add", "sub", "mul", "div", "floordiv", "mod", "pow", "tilde", "eq", "ne", "lt", "lteq", "gt", "gteq", "lparen", "rparen",
@@ -291,32 +296,114 @@ def short_sequences(ctx):
             yield "".join(seq)
 
 
-def sources(ctx):
+# ------------------------------------------------------------------ delimiter configurations
+# (the statement parser works on the token stream, so every configuration of the lexer is a source of token streams;
+#  the generated default-syntax sources are translated delimiter by delimiter, then mutated at TOKEN level with that lexer)
+CONFIGS = [
+    ("default", {}),
+    ("erb", dict(block_start_string="<%", block_end_string="%>", variable_start_string="${", variable_end_string="}", comment_start_string="<!--", comment_end_string="-->")),
+    ("brackets", dict(block_start_string="[%", block_end_string="%]", variable_start_string="[[", variable_end_string="]]", comment_start_string="[#", comment_end_string="#]")),
+    ("php", dict(block_start_string="<?", block_end_string="?>", variable_start_string="<?=", variable_end_string="?>", comment_start_string="<!--", comment_end_string="-->")),
+    ("line", dict(line_statement_prefix="#", line_comment_prefix="##")),
+    ("line-erb", dict(block_start_string="<%", block_end_string="%>", variable_start_string="${", variable_end_string="}", comment_start_string="<%#", comment_end_string="%>",
+                      line_statement_prefix="%", line_comment_prefix="%%", trim_blocks=True)),
+    ("trim", dict(trim_blocks=True, lstrip_blocks=True, keep_trailing_newline=True)),
+]
+
+
+def translate(rng, src, kw, name):
+    """default-syntax source -> the same template in another delimiter configuration"""
+    if "line_statement_prefix" in kw:
+        pre = kw["line_statement_prefix"]
+
+        def as_line(m):
+            body = m.group(1)
+            if "\n" in body or rng.random() < 0.4:
+                return m.group(0)
+            return "\n" + rng.choice(["", " ", "\t"]) + pre + " " + body.strip() + rng.choice(["", "", ":"]) + "\n" + (kw["line_comment_prefix"] + " c\n" if rng.random() < 0.15 else "")
+        src = re.sub(r"\{%(.*?)%\}", as_line, src, flags=re.S)
+    pairs = [("{%", kw.get("block_start_string")), ("%}", kw.get("block_end_string")), ("{{", kw.get("variable_start_string")), ("}}", kw.get("variable_end_string")),
+             ("{#", kw.get("comment_start_string")), ("#}", kw.get("comment_end_string"))]
+    if any(b for _, b in pairs):
+        rx = re.compile("|".join(re.escape(a) for a, _ in pairs))
+        m = {a: b or a for a, b in pairs}
+        src = rx.sub(lambda mo: m[mo.group(0)], src)
+    return src
+
+
+MUT_TOKENS = ["endfor", "endif", "else", "elif", "in", "if", "for", "=", ",", "(", ")", "|", "as", "import", ":", "-", "recursive", "scoped", ".", "[", "]", "not", "is", "~", "1", "x", "'s'", "%", "}", "{", "#", "<", ">", "?", "$"]
+
+
+def mutate_tokens(rng, env, src):
+    """token-level mutation with the environment's own lexer: delete / duplicate / swap / replace / insert one token
+    (delimiters included), then re-join the raw token texts"""
+    from jinja2.exceptions import TemplateSyntaxError
+    try:
+        toks = [v for _, _, v in env.lexer.tokeniter(src, None)]
+    except TemplateSyntaxError:
+        return mutate(rng, src)
+    idx = [i for i, v in enumerate(toks) if v.strip()]
+    if len(idx) < 2:
+        return src + " " + rng.choice(MUT_TOKENS)
+    i = rng.choice(idx)
+    k = rng.randint(0, 4)
+    if k == 0:
+        del toks[i]
+    elif k == 1:
+        toks.insert(i, toks[i] + " ")
+    elif k == 2:
+        j = rng.choice(idx)
+        toks[i], toks[j] = toks[j], toks[i]
+    elif k == 3:
+        toks[i] = rng.choice(MUT_TOKENS + [toks[rng.choice(idx)]])
+    else:
+        toks.insert(i, rng.choice(MUT_TOKENS + [toks[rng.choice(idx)]]) + " ")
+    return "".join(toks)
+
+
+def sources(ctx, name="default", kw=None, env=None):
     g = TplGen(ctx.rng)
-    for _ in range(ctx.size(2500, 60000)):
-        t = g.template()
+    if name == "default":
+        for _ in range(ctx.size(2500, 60000)):
+            t = g.template()
+            yield t, "generated"
+            if ctx.rng.random() < 0.5:
+                yield (mutate(ctx.rng, t) if ctx.rng.random() < 0.5 else mutate_tokens(ctx.rng, env, t)), "mutated"
+        for s in short_sequences(ctx):
+            yield s, "short"
+        return
+    for _ in range(ctx.size(450, 4000)):
+        t = translate(ctx.rng, g.template(), kw, name)
         yield t, "generated"
-        if ctx.rng.random() < 0.5:
-            yield mutate(ctx.rng, t), "mutated"
-    for s in short_sequences(ctx):
-        yield s, "short"
+        yield mutate_tokens(ctx.rng, env, t), "mutated"
+        if ctx.rng.random() < 0.3:
+            yield mutate_tokens(ctx.rng, env, mutate_tokens(ctx.rng, env, t)), "mutated"
+    for k, s in enumerate(short_sequences(ctx)):
+        if k % 41 == CONFIGS.index((name, kw)):          # a slice of the exhaustive short sequences under this configuration
+            yield translate(ctx.rng, s, kw, name), "short"
 
 
 def run_parse_tie(ctx):
+    X.use_jinja()
+    ctx.extra.setdefault("rule_parse", RULE_PARSE)
+    for name, kw in CONFIGS:
+        run_parse_tie_config(ctx, name, kw)
+
+
+def run_parse_tie_config(ctx, name, kw):
     import jinja2
     from jinja2.exceptions import TemplateSyntaxError
-    X.use_jinja()
-    env = jinja2.Environment()
-    ctx.extra.setdefault("rule_parse", RULE_PARSE)
+    env = jinja2.Environment(**kw)
+    tag = "" if name == "default" else name + "_"
     items, lines = [], []
-    for src, kind in sources(ctx):
+    for src, kind in sources(ctx, name, kw, env):
         try:
             ln = enc_stream(env, src)
         except TemplateSyntaxError:
-            ctx.count("parse_tie_lexer_error")
+            ctx.count("parse_tie_" + tag + "lexer_error")
             continue
         except Exception as e:
-            ctx.reject({"kind": "stmt-parse", "src": src}, "the lexer raised " + type(e).__name__, "C01:lexer-exception:" + type(e).__name__)
+            ctx.reject({"kind": "stmt-parse", "src": src, "config": name}, "the lexer raised " + type(e).__name__, "C01:lexer-exception:" + type(e).__name__)
             continue
         if ln is None:
             continue
@@ -331,11 +418,11 @@ def run_parse_tie(ctx):
     nlines_of = lambda s: s.count("\n") + 1  # noqa: E731
     for (src, kind), m in zip(items, outs):
         real = real_outcome(env, src)
-        case = {"kind": "stmt-parse", "src": src}
-        nontriv = "{%" in src and real.startswith(("ok", "err"))
-        ctx.case(sample={"src": src[:160], "outcome": real[:80]} if kind == "generated" and real.startswith("ok") and len(src) > 40 else None,
-                 key=("stmt", src) if nontriv else None)
-        ctx.count("parse_tie_" + kind + "_" + real.split()[0])
+        case = {"kind": "stmt-parse", "src": src, "config": name}
+        nontriv = env.block_start_string in src and real.startswith(("ok", "err")) or (name.startswith("line") and real.startswith("ok") and "For" in real)
+        ctx.case(sample={"src": src[:160], "config": name, "outcome": real[:80]} if kind == "generated" and real.startswith("ok") and len(src) > 40 else None,
+                 key=("stmt", name, src) if nontriv else None)
+        ctx.count("parse_tie_" + tag + kind + "_" + real.split()[0])
         # ---- oracle: never another exception type; the error line is inside the template
         if real.startswith("exc"):
             ctx.reject(dict(case, real=real), "Environment.parse raised " + real[4:] + " (not a TemplateSyntaxError)", "C01:parse-exception:" + real[4:])
